@@ -11,6 +11,19 @@ IVARS = ['K%', 'L%', 'M%', 'N%']
 ALLVARS = SVARS + IVARS
 BARE = [{'n': 'X', 'i': 'X%', 'f': 'X!'}, {'n': 'Y', 'i': 'Y%', 'f': 'Y!'}]
 DTNAMES = ['X', 'Y', 'X', 'Y', 'X!', 'X%', 'Y!', 'Y%']
+STRISH = ('S', 'T', 'S$', 'T$')        # names that are, or may be (DEFSTR), string variables
+STRBASE = 500000
+STRNAMES = ['S', 'S', 'S$', 'T$']
+
+
+def abstract_value(v):
+    """Value of a variable as Interp.tla sees it: numbers as integers, a string as 0 (empty) or STRBASE + the number its text carries."""
+    if isinstance(v, bytes):
+        m = re.search(br'-?\d+', v)
+        return 0 if not v else STRBASE + (int(m.group(0)) if m else 0)
+    if isinstance(v, float):
+        return int(v) if v == int(v) and abs(v) < 2 ** 30 else 999999999
+    return v
 
 
 def C(v):
@@ -56,6 +69,8 @@ def rstmt(st, rest=None):
     if op == 'LET':
         return '%s=%s' % (st['v'], rexpr(st['e']))
     if op == 'PRINT':
+        if st['e'].get('k') == 'v' and st['e']['n'] in STRISH:
+            return 'PRINT %s;" ";' % rexpr(st['e'])      # a string has no blanks of its own around it
         return 'PRINT %s;' % rexpr(st['e'])
     if op == 'FOR':
         s = 'FOR %s=%s TO %s' % (st['v'], rexpr(st['a']), rexpr(st['b']))
@@ -83,7 +98,8 @@ def rstmt(st, rest=None):
     if op == 'READ':
         return 'READ ' + ','.join(st['vs'])
     if op == 'DATA':
-        return 'DATA ' + ','.join(str(it['v']) if it['num'] else 'XY' for it in st['items'])
+        # (a non-numeric item is a text that carries its number: read into a string variable it is shown as that number)
+        return 'DATA ' + ','.join(str(it['v']) if it['num'] else ('X%dY' % it['v'] if it['v'] > 0 else 'XY') for it in st['items'])
     if op == 'RESTORE':
         return 'RESTORE %d' % st['n'] if st['n'] else 'RESTORE'
     if op == 'TRAP':
@@ -98,7 +114,7 @@ def rstmt(st, rest=None):
         return 'DEF %s%s=%s' % (st['f'], '(%s)' % ','.join(st['ps']) if st['ps'] else '', rexpr(st['e']))
     if op == 'DEFTYPE':
         # DEFINT / DEFSNG for the first letters of the listed bare names (no other name of a program starts with them)
-        return '%s %s' % ('DEFINT' if st['t'] == '%' else 'DEFSNG', ','.join(sorted(set(n[0] for n in st['ns']))))
+        return '%s %s' % ({'%': 'DEFINT', '!': 'DEFSNG', '$': 'DEFSTR'}[st['t']], ','.join(sorted(set(n[0] for n in st['ns']))))
     if op == 'REM':
         return "REM x:PRINT 99"
     raise ValueError(op)
@@ -180,6 +196,8 @@ class Gen(object):
         # DEFINT / DEFSNG mode: bare names X, Y whose type changes while the program runs (with their twins X!, X%, Y!, Y%)
         self.dt = bool({'fn', 'reset'} & set(profile)) and rng.random() < 0.5
         self.names = ALLVARS + (DTNAMES if self.dt else [])
+        # string mode: READ targets S (string under DEFSTR, single otherwise), S$, T$
+        self.ds = 'data' in set(profile) and rng.random() < 0.4
 
     # ---- expressions ----
     def small(self):
@@ -374,12 +392,20 @@ class Gen(object):
         r = self.r.random()
         if r < 0.45:
             k = self.r.randint(1, 3)
-            self.line([{'op': 'READ', 'vs': [self.r.choice(ALLVARS) for _ in range(k)]}] +
+            self.line([{'op': 'READ', 'vs': [self.r.choice(ALLVARS + (STRNAMES if self.ds else [])) for _ in range(k)]}] +
                       ([self.simple()] if self.r.random() < 0.3 else []))
+            if self.ds and self.r.random() < 0.5:
+                # strings: shown, copied, and the type of the bare name S switched between string and single
+                self.line([self.r.choice([{'op': 'PRINT', 'e': V(self.r.choice(STRNAMES))},
+                                          {'op': 'LET', 'v': self.r.choice(['S$', 'T$']), 'e': V(self.r.choice(['S$', 'T$']))},
+                                          {'op': 'DEFTYPE', 't': self.r.choice('$$!'), 'ns': ['S']}])])
         elif r < 0.8:
             k = self.r.randint(1, 4)
             items = [{'num': self.r.random() > (0.12 if 'err' in self.p else 0.04),
                       'v': self.r.choice([self.r.randint(-9, 99), 40000, -32768, 32767])} for _ in range(k)]
+            for it in items:
+                if not it['num']:
+                    it['v'] = self.r.randint(1, 99)      # the number a non-numeric text carries (see render)
             pre = [self.simple()] if self.r.random() < 0.3 else []
             self.line(pre + [{'op': 'DATA', 'items': items}])
         else:
@@ -538,10 +564,15 @@ class Gen(object):
                     st['ns'] = [fix(t, idx) for t in st['ns']]
                 st.pop('fix_on', None)
         prog = {'lines': self.lines, 'vars': list(ALLVARS), 'ints': list(IVARS) + ['FNK%']}
+        if self.ds:
+            prog['vars'] += ['S!', 'S$', 'T$']
+            prog['strs'] = ['S$', 'T$']
+            prog['bare'] = [{'n': 'S', 'i': 'S%', 'f': 'S!', 's': 'S$'}]
         if self.dt:
+            prog.setdefault('bare', [])
             prog['vars'] += ['X!', 'X%', 'Y!', 'Y%']
             prog['ints'] += ['X%', 'Y%']
-            prog['bare'] = [dict(b) for b in BARE]
+            prog['bare'] += [dict(b) for b in BARE]
         text = render(prog)      # also sets the col flags
         return prog, text
 
@@ -601,10 +632,7 @@ class Runner(object):
         def getvars():
             vs = []
             for nm in varnames:
-                v = sess.s.get_variable(nm if nm[-1] in '%!#' else nm + '!')
-                if isinstance(v, float):
-                    v = int(v) if v == int(v) and abs(v) < 2 ** 30 else 999999999
-                vs.append(v)
+                vs.append(abstract_value(sess.s.get_variable(nm if nm[-1] in '%!#$' else nm + '!')))
             return vs
 
         def hook(it):
@@ -699,10 +727,7 @@ def run_suspended(text, pi, varnames, k, statefile, mount, budget=600, alter=Non
             def getvars():
                 vs = []
                 for nm in varnames:
-                    v = sess.get_variable(nm if nm[-1] in '%!#' else nm + '!')
-                    if isinstance(v, float):
-                        v = int(v) if v == int(v) and abs(v) < 2 ** 30 else 999999999
-                    vs.append(v)
+                    vs.append(abstract_value(sess.get_variable(nm if nm[-1] in '%!#$' else nm + '!')))
                 return vs
 
             def hook(it):
